@@ -10,6 +10,10 @@ import OjgVerif.Reflect.EncCache
   lookups, the plan tree a lookup `(type, OmitEmpty = om)` returns has the flag `om` at every node: every
   nested struct value is written under the caller's `OmitEmpty`, whatever was encoded before;
   `cache_history_independent_current` is the instance for oj, sen and alt as they are;
+* `cache_history_independent_full`: for every well-keyed protocol and every ACYCLIC type graph (a rank
+  function, ranks bounded by the fuel) the WHOLE plan tree a lookup returns after any history equals, up
+  to the `embedded` flags, the plan tree it returns as the very first lookup of the process;
+  `cache_history_independent_full_current`: the instance for oj, sen, alt as they are;
 * `cache_plain_first_history_dependent`: the hypothesis is needed — under the protocol of seeded
   change C15-m7 (a hit in `structMap` is returned before `structEmptyMap` is consulted) the same lookup
   returns a plan whose nested node has the flag `false` after the history "inner type without
@@ -194,5 +198,196 @@ theorem cache_plain_first_history_dependent :
     allOmB true 3 (getTop Cfg.plainFirst twoTypes 3 (run Cfg.plainFirst twoTypes 3 [(0, false)] Cache.none) 1 true).1 = false ∧
     allOmB true 3 (getTop Cfg.plainFirst twoTypes 3 Cache.none 1 true).1 = true := by
   decide +kernel
+
+/-! ## the whole plan tree, up to the embedded flags -/
+
+mutual
+  /-- forget the `embedded` flags (they select offset- or index-based access to the same field) -/
+  def eraseEmb {K : Type} : Plan K → Plan K
+    | .mk k om _ ps => .mk k om false (eraseEmbList ps)
+  def eraseEmbList {K : Type} : List (Plan K) → List (Plan K)
+    | [] => []
+    | p :: r => eraseEmb p :: eraseEmbList r
+end
+
+section
+variable {K : Type}
+
+/-- the plan tree of `k` under flag `om` as a function of the type graph alone -/
+def ideal (env : Env K) : Nat → Bool → K → Plan K
+  | 0, om, k => .mk k om false []
+  | f + 1, om, k => .mk k om false ((env.kids k).map fun ke => ideal env f om ke.1)
+
+/-- the type graph is acyclic: a carried struct type has a smaller rank -/
+def Ranked (env : Env K) (rank : K → Nat) : Prop := ∀ k ke, ke ∈ env.kids k → rank ke.1 < rank k
+
+theorem ideal_stable {env : Env K} {rank : K → Nat} (hr : Ranked env rank) (om : Bool) :
+    ∀ (f f' : Nat) (k : K), rank k < f → rank k < f' → ideal env f om k = ideal env f' om k := by
+  intro f
+  induction f with
+  | zero => intro f' k h; exact absurd h (Nat.not_lt_zero _)
+  | succ n ih =>
+    intro f' k h h'
+    cases f' with
+    | zero => exact absurd h' (Nat.not_lt_zero _)
+    | succ m =>
+      simp only [ideal]
+      congr 1
+      apply List.map_congr_left
+      intro ke hke
+      have := hr k ke hke
+      exact ih m ke.1 (by omega) (by omega)
+
+def idealR (env : Env K) (rank : K → Nat) (om : Bool) (k : K) : Plan K := ideal env (rank k + 1) om k
+
+theorem idealR_unfold {env : Env K} {rank : K → Nat} (hr : Ranked env rank) (om : Bool) (k : K) :
+    idealR env rank om k = .mk k om false ((env.kids k).map fun ke => idealR env rank om ke.1) := by
+  show Plan.mk k om false ((env.kids k).map fun ke => ideal env (rank k) om ke.1) = _
+  congr 1
+  apply List.map_congr_left
+  intro ke hke
+  have := hr k ke hke
+  exact ideal_stable hr om (rank k) (rank ke.1 + 1) ke.1 (by omega) (by omega)
+
+variable [DecidableEq K]
+
+/-- every plan in map `m` under key `k` is, up to the embedded flags, THE plan of `(k, m)` -/
+def CacheInvF (env : Env K) (rank : K → Nat) (c : Cache K) : Prop :=
+  ∀ m k p, c.get m k = some p → eraseEmb p = idealR env rank m k
+
+theorem cacheInvF_none (env : Env K) (rank : K → Nat) : CacheInvF env rank (Cache.none : Cache K) := by
+  intro m k p h
+  cases m <;> simp [Cache.get, Cache.none, assoc] at h
+
+theorem cacheInvF_put {env : Env K} {rank : K → Nat} {c : Cache K} (hc : CacheInvF env rank c) (m : Bool) (k : K) (p : Plan K)
+    (hp : eraseEmb p = idealR env rank m k) : CacheInvF env rank (c.put m k p) := by
+  intro m' k' p' h
+  cases m <;> cases m' <;> simp [Cache.put, Cache.get, assoc_cons] at h
+  · by_cases hk : k = k'
+    · simp [hk] at h; subst h; subst hk; exact hp
+    · simp [hk] at h; exact hc false k' p' (by simpa [Cache.get] using h)
+  · exact hc true k' p' (by simpa [Cache.get] using h)
+  · exact hc false k' p' (by simpa [Cache.get] using h)
+  · by_cases hk : k = k'
+    · simp [hk] at h; subst h; subst hk; exact hp
+    · simp [hk] at h; exact hc true k' p' (by simpa [Cache.get] using h)
+
+theorem firstHit_full {env : Env K} {rank : K → Nat} {c : Cache K} (hc : CacheInvF env rank c) (k : K) (om : Bool) :
+    ∀ (lk : List Bool), (∀ m, m ∈ lk → m = om) → ∀ p, firstHit c k lk = some p → eraseEmb p = idealR env rank om k
+  | [], _, p, h => by simp [firstHit] at h
+  | m :: ms, hl, p, h => by
+    unfold firstHit at h
+    cases hg : c.get m k with
+    | some q =>
+      rw [hg] at h
+      simp at h
+      subst h
+      have : m = om := hl m (by simp)
+      subst this
+      exact hc m k q hg
+    | none =>
+      rw [hg] at h
+      exact firstHit_full hc k om ms (fun m' hm' => hl m' (by simp [hm'])) p h
+
+theorem buildKids_full {env : Env K} {rank : K → Nat} {om : Bool} {n : Nat}
+    {get : Cache K → K → Bool → Plan K × Cache K}
+    (hg : ∀ c k emb, rank k < n → CacheInvF env rank c →
+      eraseEmb (get c k emb).1 = idealR env rank om k ∧ CacheInvF env rank (get c k emb).2) :
+    ∀ (ks : List (K × Bool)) (c : Cache K), (∀ ke, ke ∈ ks → rank ke.1 < n) → CacheInvF env rank c →
+      eraseEmbList (buildKids get c ks).1 = ks.map (fun ke => idealR env rank om ke.1) ∧
+        CacheInvF env rank (buildKids get c ks).2
+  | [], c, _, hc => by simp [buildKids, eraseEmbList, hc]
+  | ke :: r, c, hk, hc => by
+    have h1 := hg c ke.1 ke.2 (hk ke (by simp)) hc
+    have h2 := buildKids_full hg r (get c ke.1 ke.2).2 (fun x hx => hk x (by simp [hx])) h1.2
+    constructor
+    · simp only [buildKids, eraseEmbList, List.map_cons, h1.1, h2.1]
+    · simpa [buildKids] using h2.2
+
+theorem getNested_full {cfg : Cfg} (h : cfg.wellKeyed = true) {env : Env K} {rank : K → Nat} (hr : Ranked env rank) (om : Bool) :
+    ∀ (fuel : Nat) (c : Cache K) (k : K) (emb : Bool), rank k < fuel → CacheInvF env rank c →
+      eraseEmb (getNested cfg env fuel om c k emb).1 = idealR env rank om k ∧
+        CacheInvF env rank (getNested cfg env fuel om c k emb).2
+  | 0, _, k, _, hk, _ => absurd hk (Nat.not_lt_zero _)
+  | f + 1, c, k, emb, hk, hc => by
+    have hw := wellKeyed_spec h om
+    unfold getNested
+    cases hf : firstHit c k (cfg.nestLookups om) with
+    | some p => exact ⟨firstHit_full hc k om _ hw.1 p hf, hc⟩
+    | none =>
+      have hkids := buildKids_full (env := env) (rank := rank) (om := om) (n := f)
+        (fun c k emb hk hc => getNested_full h hr om f c k emb hk hc) (env.kids k) c
+        (fun ke hke => by have := hr k ke hke; omega) hc
+      have hp : eraseEmb (Plan.mk k om emb (buildKids (getNested cfg env f om) c (env.kids k)).1) = idealR env rank om k := by
+        rw [idealR_unfold hr om k]
+        simp only [eraseEmb, hkids.1]
+      refine ⟨hp, ?_⟩
+      simp only [hw.2.2]
+      exact cacheInvF_put hkids.2 om k _ hp
+
+theorem getTop_full {cfg : Cfg} (h : cfg.wellKeyed = true) {env : Env K} {rank : K → Nat} (hr : Ranked env rank)
+    (fuel : Nat) (c : Cache K) (hc : CacheInvF env rank c) (k : K) (hk : rank k ≤ fuel) (om : Bool) :
+    eraseEmb (getTop cfg env fuel c k om).1 = idealR env rank om k ∧ CacheInvF env rank (getTop cfg env fuel c k om).2 := by
+  have hw := wellKeyed_spec h om
+  unfold getTop
+  cases hf : firstHit c k (cfg.topLookups om) with
+  | some p => exact ⟨firstHit_full hc k om _ hw.2.1 p hf, hc⟩
+  | none =>
+    have hkids := buildKids_full (env := env) (rank := rank) (om := om) (n := fuel)
+      (fun c k emb hk hc => getNested_full h hr om fuel c k emb hk hc) (env.kids k) c
+      (fun ke hke => by have := hr k ke hke; omega) hc
+    have hp : eraseEmb (Plan.mk k om false (buildKids (getNested cfg env fuel om) c (env.kids k)).1) = idealR env rank om k := by
+      rw [idealR_unfold hr om k]
+      simp only [eraseEmb, hkids.1]
+    refine ⟨hp, ?_⟩
+    simp only [hw.2.2]
+    exact cacheInvF_put hkids.2 om k _ hp
+
+theorem run_invF {cfg : Cfg} (h : cfg.wellKeyed = true) {env : Env K} {rank : K → Nat} (hr : Ranked env rank)
+    (fuel : Nat) (hb : ∀ k, rank k ≤ fuel) :
+    ∀ (hist : List (K × Bool)) (c : Cache K), CacheInvF env rank c → CacheInvF env rank (run cfg env fuel hist c)
+  | [], c, hc => by simpa [run] using hc
+  | ko :: r, c, hc => by
+    simp only [run]
+    exact run_invF h hr fuel hb r _ (getTop_full h hr fuel c hc ko.1 (hb _) ko.2).2
+
+/-- HISTORY INDEPENDENCE, whole plan: for every well-keyed protocol and every acyclic type graph
+(ranks bounded by the fuel), the plan tree the lookup `(k, om)` returns after ANY history of earlier
+lookups is — up to the embedded flags — the plan tree it returns as the very first lookup of the
+process: a function of the type and the flag alone. -/
+theorem cache_history_independent_full {cfg : Cfg} (h : cfg.wellKeyed = true) {env : Env K} {rank : K → Nat}
+    (hr : Ranked env rank) (fuel : Nat) (hb : ∀ k, rank k ≤ fuel) (hist : List (K × Bool)) (k : K) (om : Bool) :
+    eraseEmb (getTop cfg env fuel (run cfg env fuel hist Cache.none) k om).1 =
+      eraseEmb (getTop cfg env fuel Cache.none k om).1 := by
+  rw [(getTop_full h hr fuel _ (run_invF h hr fuel hb hist _ (cacheInvF_none env rank)) k (hb k) om).1,
+    (getTop_full h hr fuel _ (cacheInvF_none env rank) k (hb k) om).1]
+
+end
+
+/-- … and so for oj, sen and alt as they are -/
+theorem cache_history_independent_full_current {K : Type} [DecidableEq K] {env : Env K} {rank : K → Nat}
+    (hr : Ranked env rank) (fuel : Nat) (hb : ∀ k, rank k ≤ fuel) (hist : List (K × Bool)) (k : K) (om : Bool) :
+    (eraseEmb (getTop Cfg.oj env fuel (run Cfg.oj env fuel hist Cache.none) k om).1 =
+      eraseEmb (getTop Cfg.oj env fuel Cache.none k om).1) ∧
+    (eraseEmb (getTop Cfg.sen env fuel (run Cfg.sen env fuel hist Cache.none) k om).1 =
+      eraseEmb (getTop Cfg.sen env fuel Cache.none k om).1) ∧
+    (eraseEmb (getTop Cfg.alt env fuel (run Cfg.alt env fuel hist Cache.none) k om).1 =
+      eraseEmb (getTop Cfg.alt env fuel Cache.none k om).1) :=
+  ⟨cache_history_independent_full cache_cfg_current.1 hr fuel hb hist k om,
+   cache_history_independent_full cache_cfg_current.2.1 hr fuel hb hist k om,
+   cache_history_independent_full cache_cfg_current.2.2.1 hr fuel hb hist k om⟩
+
+/-- the hypotheses are satisfiable: the two-type graph is ranked, with ranks bounded by 1 -/
+example : Ranked twoTypes (fun k => if k = 1 then 1 else 0) ∧ ∀ k : Nat, (fun k => if k = 1 then 1 else 0) k ≤ 1 := by
+  constructor
+  · intro k ke hke
+    by_cases h : k = 1
+    · subst h
+      simp [twoTypes] at hke
+      subst hke
+      simp
+    · simp [twoTypes, h] at hke
+  · intro k
+    by_cases h : k = 1 <;> simp [h]
 
 end OjgVerif.C15
